@@ -52,10 +52,10 @@ func TestVerifReplayStr(t *testing.T) {
 	var res []string
 	for _, line := range strings.Split(out, "\n") {
 		line = strings.TrimSpace(line)
-		if !strings.HasPrefix(line, "RESULT ") {
+		if line != "RESULT" && !strings.HasPrefix(line, "RESULT ") {
 			continue
 		}
-		v := strings.TrimPrefix(line, "RESULT ")
+		v := strings.TrimSpace(strings.TrimPrefix(line, "RESULT"))
 		if strings.HasPrefix(v, "PANIC:") {
 			b, _ := hex.DecodeString(strings.TrimPrefix(v, "PANIC:"))
 			res = append(res, "PANIC:"+string(b))
